@@ -228,7 +228,7 @@ def generate():
         ("oid_pk, rest = der.remove_object(s2)", []),
         ("oid_curve, empty = der.remove_object(rest)", []),
         ("if empty != b'':\n    raise der.UnexpectedDER('trailing junk after DER pubkey objects: %s' % binascii.hexlify(empty))", []),
-        ("if not oid_pk == oid_ecPublicKey:\n    raise der.UnexpectedDER('Unexpected object identifier in DER encoding: {0!r}'.format(oid_pk))", []),
+        ("if not oid_pk == oid_ecPublicKey:\n    raise der.UnexpectedDER('Unexpected object identifier in DER encoding: {0}'.format(der.oid_to_text(oid_pk)))", []),
         ("curve = find_curve(oid_curve)", []),
         ("point_str, empty = der.remove_bitstring(point_str_bitstring, 0)", []),
         ("if empty != b'':\n    raise der.UnexpectedDER('trailing junk after pubkey pointstring: %s' % binascii.hexlify(empty))", []),
@@ -301,19 +301,19 @@ def generate():
         ("if empty != b(''):\n    raise der.UnexpectedDER('trailing junk after DER privkey: %s' % binascii.hexlify(empty))", []),
         ("version, s = der.remove_integer(s)", []),
         ("if der.is_sequence(s):\n"
-         "    if __H0__:\n        raise der.UnexpectedDER(\"expected version '0' or '1' at start of privkey, got %d\" % version)\n"
+         "    if __H0__:\n        raise der.UnexpectedDER(\"expected version '0' or '1' at start of privkey, got 0x%x\" % version)\n"
          "    sequence, s = der.remove_sequence(s)\n"
          "    algorithm_oid, algorithm_identifier = der.remove_object(sequence)\n"
          "    curve_oid, empty = der.remove_object(algorithm_identifier)\n"
          "    curve = find_curve(curve_oid)\n"
-         "    if algorithm_oid not in (oid_ecPublicKey, oid_ecDH, oid_ecMQV):\n        raise der.UnexpectedDER(\"unexpected algorithm identifier '%s'\" % (algorithm_oid,))\n"
+         "    if algorithm_oid not in (oid_ecPublicKey, oid_ecDH, oid_ecMQV):\n        raise der.UnexpectedDER(\"unexpected algorithm identifier '%s'\" % der.oid_to_text(algorithm_oid))\n"
          "    if empty != b'':\n        raise der.UnexpectedDER('unexpected data after algorithm identifier: %s' % binascii.hexlify(empty))\n"
          "    s, _ = der.remove_octet_string(s)\n"
          "    s, empty = der.remove_sequence(s)\n"
          "    if empty != b(''):\n        raise der.UnexpectedDER('trailing junk after DER privkey: %s' % binascii.hexlify(empty))\n"
          "    version, s = der.remove_integer(s)",
          [(lambda s: s.body[0].test, "bool", "sk_der_pkcs8_version_bad", ["version"], {}, None)]),
-        ("if __H0__:\n    raise der.UnexpectedDER(\"expected version '1' at start of DER privkey, got %d\" % version)",
+        ("if __H0__:\n    raise der.UnexpectedDER(\"expected version '1' at start of DER privkey, got 0x%x\" % version)",
          [(test, "bool", "sk_der_version_bad", ["version"], {}, None)]),
         ("privkey_str, s = der.remove_octet_string(s)", []),
         ("if not curve:\n"
@@ -350,7 +350,7 @@ def generate():
     f = find_func(cv, "find_curve")
     whole(f, "curves.find_curve", "oid_curve", [],
           "for c in curves:\n    if c.oid == oid_curve:\n        return c\n"
-          "raise UnknownCurveError(\"I don't know about the curve with oid %s.I only know about these: %s\" % (oid_curve, [c.name for c in curves]))")
+          "raise UnknownCurveError(\"I don't know about the curve with oid %s.I only know about these: %s\" % (der.oid_to_text(oid_curve), [c.name for c in curves]))")
     f = find_func(cv, "__init__", cls="Curve")
     if sig(f, "Curve.__init__", "self, name, curve, generator, oid, openssl_name=None") != []:
         raise Unsupported("Curve.__init__: decorators changed")
